@@ -358,12 +358,19 @@ impl World {
     /// Walk the paginated Members query to its end (page size 7, so that several pages are
     /// needed); (id, mint_count) with mint_count = 1 for the non-flex kinds.
     pub fn members_all(&self, stage: Option<u32>) -> Result<Vec<(u64, u32)>, String> {
+        self.members_walk(stage, Some(7)).map(|r| r.0)
+    }
+
+    /// Walk the paginated Members query to its end asking for `limit` entries per page
+    /// (None: the contract's default).  Returns the concatenation and the page sizes.
+    pub fn members_walk(&self, stage: Option<u32>, limit: Option<u32>) -> Result<(Vec<(u64, u32)>, Vec<usize>), String> {
         let mut out: Vec<(u64, u32)> = vec![];
+        let mut pages = vec![];
         let mut after: Option<String> = None;
         loop {
             let mut q = serde_json::Map::new();
             q.insert("start_after".into(), json!(after));
-            q.insert("limit".into(), json!(7));
+            q.insert("limit".into(), json!(limit));
             if let Some(s) = stage {
                 q.insert("stage_id".into(), json!(s));
             }
@@ -372,6 +379,8 @@ impl World {
             if page.is_empty() {
                 break;
             }
+            pages.push(page.len());
+            let before = after.clone();
             for m in &page {
                 let (n, c) = match m {
                     Value::String(s) => (s.clone(), 1u32),
@@ -380,11 +389,48 @@ impl World {
                 after = Some(n.clone());
                 out.push((id_of(&n), c));
             }
-            if out.len() > 100_000 {
-                return Err("members: pagination does not end".into());
+            // no progress (the page ends where it was asked to start after): would never end
+            if after == before || out.len() > 100_000 || pages.len() > 100_000 {
+                return Err(format!("members: pagination does not advance past {:?}", after));
             }
         }
-        Ok(out)
+        Ok((out, pages))
+    }
+
+    /// What is actually stored, read from raw storage through the crates' own public
+    /// map constants: (stage id, member id, mint count); stage 0 / count 1 where the kind
+    /// has none.  Ascending key order.
+    pub fn raw_members(&self) -> Vec<(u32, u64, u32)> {
+        use cosmwasm_std::Order;
+        let Some(addr) = self.addr.as_ref() else { return vec![] };
+        let st = self.app.contract_storage(addr);
+        match self.kind {
+            Kind::Plain => sg_whitelist::state::WHITELIST
+                .range(&*st, None, None, Order::Ascending)
+                .map(|r| r.unwrap())
+                .map(|(a, _)| (0, id_of(a.as_str()), 1))
+                .collect(),
+            Kind::Flex => sg_whitelist_flex::state::WHITELIST
+                .range(&*st, None, None, Order::Ascending)
+                .map(|r| r.unwrap())
+                .map(|(a, c)| (0, id_of(a.as_str()), c))
+                .collect(),
+            Kind::Tiered => sg_tiered_whitelist::state::WHITELIST_STAGES
+                .range(&*st, None, None, Order::Ascending)
+                .map(|r| r.unwrap())
+                .map(|((k, a), _)| (k, id_of(a.as_str()), 1))
+                .collect(),
+            Kind::TieredFlex => sg_tiered_whitelist_flex::state::WHITELIST_STAGES
+                .range(&*st, None, None, Order::Ascending)
+                .map(|r| r.unwrap())
+                .map(|((k, a), c)| (k, id_of(a.as_str()), c))
+                .collect(),
+            Kind::Immutable => whitelist_immutable::state::WHITELIST
+                .keys(&*st, None, None, Order::Ascending)
+                .map(|k| (0, id_of(&k.unwrap()), 1))
+                .collect(),
+            Kind::Merkle => vec![],
+        }
     }
 }
 
